@@ -116,7 +116,12 @@ def run_one(rec):
             f.write(src)
         imports_file = os.path.join(root, "imports_src.py")
         with open(imports_file, "w") as f:
-            f.write("\n".join(IMPORT_LINES[: c["imports"]]) + "\nX = 1\n")
+            lines = IMPORT_LINES[: c["imports"]]
+            if len(lines) == 2 and int(rec["id"][1:]) % 2:
+                # the imports of the file need not form one block: another statement stands between them
+                f.write(lines[0] + "\n__author__ = 'someone'\n" + lines[1] + "\nX = 1\n")
+            else:
+                f.write("\n".join(lines) + "\nX = 1\n")
         out = os.path.join(root, "out.py")
         if c["exists"]:
             with open(out, "w") as f:
